@@ -441,4 +441,40 @@ PROPS["C12"] = {
     "level_note": "Trusted: Lean kernel, Spec/Inflate.lean, compress/flate as a black box, harness.",
 }
 
+PROPS["C18"] = {
+    "lean": ["WsVerif.Props.C18", "WsVerif.Bridge.C18"],
+    "rule": "Differential: an instance is driven through a history, reset, driven through an `after` sequence; a freshly constructed instance "
+            "with the same configuration is driven through the same `after` sequence; both observations (every result, every destination "
+            "write) must be equal. wsutil.Writer.Reset: 11 histories (unflushed data, several fragments, flushed message, Grow, extension "
+            "set, DisableFlush, write-through; destination failing at write 0 or 1) x 6 after-sequences x both sides x 3 buffer "
+            "configurations, reset to the same or the other side; Writer.ResetOp likewise against a fresh writer carrying the history's "
+            "extension and flush mode; PutWriter/GetWriter for 5 sizes; UTF8Reader.Reset: 8 histories (complete, mid-sequence, invalid) x 7 "
+            "after-inputs incl. continuation bytes; CipherReader/CipherWriter.Reset with new masks after odd-length histories; wsflate.Writer "
+            "with a scripted compressor after clean / unflushed / bad-tail / destination-error histories; compress/flate through the "
+            "WriteResetter and ReadResetter paths (levels 1 and 9; corrupt history for the reader).",
+    "exhaustive_families": [],
+    "trusted_base": [
+        "Models of wsutil.Writer (Model/Writer.lean), wsflate Writer/Reader shells (Model/Flate.lean), UTF8Reader, CipherReader/Writer, "
+        "Extension as in C06/C12/C07/C02/C14; the reset run and the fresh run are both computed in the model and compared with the "
+        "implementation item by item",
+        "Bridge.C18: the assignments of every Reset/reset/ResetOp method and the field lists of every resettable struct regenerated from "
+        "the source (a field a Reset forgets shows up as a changed list)",
+        "compress/flate's own Reset is outside (differential only)",
+    ],
+    "assumptions": COMMON_ASSUME + [
+        "'same configuration' for wsutil.Writer = same payload capacity (Size()), side and opcode; buffer growth survives a Reset",
+        "ResetOp after a destination error is left open (the destination is kept, the statement only speaks of fragments, extensions and "
+        "flush mode)",
+        "the message reader's per-message reset is exercised by C04/C05 stream cases (message after message against the stream spec)",
+    ],
+    "level_text": "Kernel-checked for EVERY prior state (hence every history): wsutil.Writer.Reset equals NewWriterBuffer on the same raw "
+                  "buffer - buffered data, dirty flag, fragment counter, extension, DisableFlush, side and the sticky destination error all "
+                  "gone, only buffer growth survives; ResetOp drops fragments and keeps side, buffer, extension and flush mode; GetWriter is "
+                  "a constructor whatever was Put; wsflate.Writer.Reset, the suffixed reader's reset, UTF8Reader.Reset, "
+                  "CipherReader/Writer.Reset and Extension.Reset equal the freshly constructed values. The unchanged tree violated the "
+                  "property: F4 (Writer.Reset kept the sticky write error: a reused writer never wrote again) and F11 (UTF8Reader.Reset "
+                  "kept the accepted counter) - found by the differential oracle, repaired by fix commits 61d761f and ee45f83.",
+    "level_note": "Trusted: Lean kernel, the models named above, harness.",
+}
+
 NOT_APPLICABLE = {}
